@@ -15,7 +15,8 @@ LEVEL = "exploration"
 RULE = ("one case = one topology (AXI-Lite shared / crossbar, AXI4 shared / crossbar; 1..3 masters x 1..3 slaves, random disjoint "
         "address map) x one master timing class x per-channel schedules. Classes: A = address with/before data, single outstanding "
         "(LiteX-like, must be clean); B = data before address; C = 2..4 outstanding requests; D = heavy B/R back-pressure with "
-        "simultaneous reads and writes. Every AW/W/AR carries (master, seq), every R carries (slave, n); slave BFMs accept the three "
+        "simultaneous reads and writes; E = eager masters with 2..4 outstanding requests to one slave each and quick slaves (requests "
+        "accepted in the cycle earlier responses complete; must be clean). Every AW/W/AR carries (master, seq), every R carries (slave, n); slave BFMs accept the three "
         "request channels independently, queue up to 4 and answer in order with random delay and random resp. Logs of all ports are "
         "paired offline; stability of every DUT-driven valid is monitored online; arbiter grant vs outstanding counter every cycle. "
         "Non-trivial = >= 10 responses returned and (>= 2 masters or >= 2 slaves); distinct = distinct case digests")
@@ -37,7 +38,7 @@ def plan(tier, seed):
         for kind in ("shared", "crossbar"):
             for m in (1, 2, 3):
                 for s in (1, 2, 3):
-                    for cls in "ABCD":
+                    for cls in "ABCDE":
                         for k in range(per):
                             if std == "full" and k >= max(1, per // 2):
                                 continue
@@ -73,6 +74,7 @@ class LockMonitor:
         self.viol = []
         self.checks = 0
         self.max_counter = 0
+        self.changes = []          # (cycle, direction, from, to): judged offline against the handshakes seen at the slave ports
 
     def signals(self):
         return [s for g, c, _ in self.items for s in (g, c)]
@@ -83,6 +85,8 @@ class LockMonitor:
             for (pg, pc), (g, cn), (_, _, d) in zip(self.prev, cur, self.items):
                 self.checks += 1
                 self.max_counter = max(self.max_counter, cn)
+                if g != pg:
+                    self.changes.append((c, d, pg, g))
                 if pc != 0 and g != pg:
                     self.viol.append({"cycle": c, "kind": "grant-moved-with-responses-outstanding", "dir": d,
                                       "counter": pc, "from": pg, "to": g})
@@ -132,6 +136,10 @@ def class_params(rng, cls):
     if cls == "C":
         return dict(order=rng.choice(["together", "aw_first", "free"]), max_out=rng.choice([2, 3, 4]), p_aw=rng.choice([1.0, 0.7]),
                     p_w=rng.choice([1.0, 0.7]), p_ar=1.0, bp=None)
+    if cls == "E":
+        # eager masters with several outstanding requests (to one slave per master, see run_case): a new request is often
+        # accepted in the very cycle an earlier response completes
+        return dict(order="together", max_out=rng.choice([2, 3, 4]), p_aw=1.0, p_w=1.0, p_ar=1.0, bp=None)
     return dict(order=rng.choice(["together", "aw_first"]), max_out=1, p_aw=1.0, p_w=1.0, p_ar=1.0, bp="heavy")
 
 
@@ -158,12 +166,13 @@ def run_case(case):
     for mi, m in enumerate(masters):
         p = class_params(rng, cls)
         writes, reads = [], []
+        home = rng.randrange(ns)
         for i in range(nw):
-            o, k = regs[rng.randrange(ns)]
+            o, k = regs[home if cls == "E" else rng.randrange(ns)]
             writes.append({"addr": (o + (i & 63)) * 4, "data": (mi << 28) | (i << 16) | rng.getrandbits(16),
                            "strb": rng.choice([0xf, 0xf, rng.getrandbits(4)]), "prot": mi})
         for i in range(nr):
-            o, k = regs[rng.randrange(ns)]
+            o, k = regs[home if cls == "E" else rng.randrange(ns)]
             reads.append({"addr": (o + (i & 63)) * 4, "prot": mi})
         bs = make_sched(rng, "b10" if p["bp"] else rng.choice(["always", "b90", "b50"]))[0]
         rs = make_sched(rng, "b10" if p["bp"] else rng.choice(["always", "b90", "b50"]))[0]
@@ -174,8 +183,11 @@ def run_case(case):
     for si, s in enumerate(slaves):
         def tagger(slv, addr, n, si=si):
             return (si << 28) | ((n & 0xfff) << 16) | (addr & 0xffff)
-        sags.append(bench.add(AXILSlave(s, rng, "s%d" % si, depth=4, aw_sched=make_sched(rng)[0], w_sched=make_sched(rng)[0],
-                                        ar_sched=make_sched(rng)[0], lat=rng.choice([(0, 0), (0, 4), (2, 8)]),
+        eager = cls == "E"
+        sags.append(bench.add(AXILSlave(s, rng, "s%d" % si, depth=4, aw_sched=Always(True) if eager else make_sched(rng)[0],
+                                        w_sched=Always(True) if eager else make_sched(rng)[0],
+                                        ar_sched=Always(True) if eager else make_sched(rng)[0],
+                                        lat=rng.choice([(0, 0), (1, 1), (0, 2), (2, 3)]) if eager else rng.choice([(0, 0), (0, 4), (2, 8)]),
                                         err_p=rng.choice([0, 0.2]), tagger=tagger, coop_from=hostile)))
         smons.append(port_monitors(bench, s, "s%d" % si, "requests"))
     lms = [bench.add(LockMonitor(a)) for a in arbs]
@@ -263,6 +275,19 @@ def run_case(case):
                     errs.append({"kind": "%s-%s" % (ch, sv["kind"]), "port": mon.name, "at": sv})
     for lm in lms:
         errs += lm.viol[:1]
+    # grant changes judged on what was OBSERVED at the slave ports (not on the interconnect's own counters): at the edge where
+    # an arbiter's grant moves, every request accepted through it must already have been answered
+    for ai, lm in enumerate(lms):
+        slaves_of = sags if kind == "shared" else [sags[ai]]
+        for (c, d, pg, g) in lm.changes:
+            if d == "write":
+                out_ = sum(sum(1 for e in s_.log["aw"] if e[0] < c) - sum(1 for e in s_.log["b"] if e[0] < c) for s_ in slaves_of)
+            else:
+                out_ = sum(sum(1 for e in s_.log["ar"] if e[0] < c) - sum(1 for e in s_.log["r"] if e[0] < c) for s_ in slaves_of)
+            if out_ > 0:
+                errs.append({"kind": "grant-moved-with-responses-outstanding(observed-at-slave-ports)", "cycle": c, "dir": d,
+                             "from": pg, "to": g, "outstanding": out_})
+                break
     root = None
     if errs:
         root = data_before_address(mags, errs) or root_cause([[(c, t[0]) for c, t in m.log["aw"]] for m in mags], [[c for c, _ in m.log["b"]] for m in mags],
